@@ -2622,47 +2622,103 @@ def _scalar_type_literal(text, subject):
 
 
 def _stable_repr_function(ck, name):
-    """A module-level function of code_hash that sorts set elements (canonical repr)."""
+    """A module-level function of code_hash that renders the elements of a set in an order that does not depend on the hash seed:
+    in the branch for sets, EVERY iteration over the object maps the elements through this very function and the resulting
+    strings are sorted (by themselves: no key) before anything else reads them - `sorted(f(x) for x in o)`, `sorted(map(f, o))`,
+    a list built by a comprehension or filled by an append loop and then sorted in place / handed to sorted()."""
     m = ck.repo.module(CH)
     fi = m.functions.get(name)
     if fi is None:
         return False
+    fa = FA(ck, fi)
     param = fi.params[0] if fi.params else "o"
+
+    def plain_sorted(call, arg):
+        return isinstance(call, ast.Call) and isinstance(call.func, ast.Name) and call.func.id == "sorted" and call.args and call.args[0] is arg and not call.keywords
+
+    def maps_through_self(elt, var):
+        return isinstance(elt, ast.Call) and A.call_attr(elt) == name and len(elt.args) == 1 and not elt.keywords and isinstance(elt.args[0], ast.Name) and elt.args[0].id == var
+
+    def sorted_before_read(lst, fill_stmts, scope):
+        """the local list `lst` (filled by `fill_stmts` only) is sorted, by its elements themselves, before anything else reads it"""
+        pm_ = A.parent_map(scope)
+        sorts, reads = [], []
+        for x in ast.walk(scope):
+            if not (isinstance(x, ast.Name) and x.id == lst):
+                continue
+            if isinstance(x.ctx, ast.Store):
+                if not any(x in ast.walk(f_) for f_ in fill_stmts):
+                    return False   # given another value somewhere
+                continue
+            if any(x in ast.walk(f_) for f_ in fill_stmts):
+                continue
+            par = pm_.get(x)
+            if isinstance(par, ast.Attribute) and par.value is x and isinstance(pm_.get(par), ast.Call) and pm_.get(par).func is par:
+                c_ = pm_.get(par)
+                if par.attr == "sort" and not c_.args and not c_.keywords:
+                    sorts.append(c_)
+                    continue
+                if par.attr in _LIST_MUTATORS:
+                    return False
+            if plain_sorted(par, x):
+                continue    # read through sorted(): the order it had does not matter
+            reads.append(x)
+        if not reads:
+            return True
+        sn = fa.nodes_all(sorts)
+        return bool(sn) and all(fa.nodes(r_) and all(fa.cfg.must_pass(sn, i_) and i_ not in sn for i_ in fa.nodes(r_)) for r_ in reads)
+
     for i in [n for n in A.walk_body(fi.node) if isinstance(n, ast.If)]:
         it = A.isinstance_types(i.test)
-        if it and "frozenset" in it[1]:
-            # every iteration over the set must be a comprehension mapping the elements through
-            # this very function, wrapped directly in sorted(...): the order is then the order of
-            # canonical strings, which exists for mixed-type sets and does not depend on the seed
-            ok_any = False
-            for st in i.body:
-                for n in ast.walk(st):
-                    if isinstance(n, ast.Name) and n.id == param and isinstance(n.ctx, ast.Load):
-                        # find how this occurrence is used
-                        pm = A.parent_map(st)
-                        par = pm.get(n)
-                        if isinstance(par, ast.Call) and A.call_attr(par) == "type":
-                            continue
-                        if isinstance(par, ast.comprehension) and par.iter is n:
-                            comp = pm.get(par)
-                            outer = pm.get(comp)
-                            elt = getattr(comp, "elt", None)
-                            good = isinstance(elt, ast.Call) and A.call_attr(elt) == name and isinstance(outer, ast.Call) and A.call_attr(outer) == "sorted" \
-                                and outer.args and outer.args[0] is comp and not outer.keywords
-                            if good:
-                                ok_any = True
-                                continue
-                        if isinstance(par, ast.Call) and isinstance(par.func, ast.Name) and par.func.id == "map" and len(par.args) == 2 and par.args[1] is n \
-                                and isinstance(par.args[0], ast.Name) and par.args[0].id == name:
-                            outer = pm.get(par)
-                            if isinstance(outer, ast.Call) and A.call_attr(outer) == "sorted" and outer.args and outer.args[0] is par and not outer.keywords:
-                                ok_any = True
-                                continue
-                        return False
-            # no fallback path that iterates in raw order (e.g. except TypeError: list(o))
-            if any(isinstance(n, ast.Try) for st in i.body for n in ast.walk(st)):
+        if not (it and "frozenset" in it[1]):
+            continue
+        # no fallback path that iterates in raw order (e.g. except TypeError: list(o))
+        if any(isinstance(n, ast.Try) for st in i.body for n in ast.walk(st)):
+            return False
+        scope = ast.Module(body=list(i.body), type_ignores=[])
+        pm = A.parent_map(scope)
+        ok_any = False
+        for n in ast.walk(scope):
+            if not (isinstance(n, ast.Name) and n.id == param and isinstance(n.ctx, ast.Load)):
+                continue
+            par = pm.get(n)
+            if isinstance(par, ast.Call) and A.call_attr(par) == "type":
+                continue
+            if isinstance(par, ast.comprehension) and par.iter is n:
+                comp = pm.get(par)
+                if isinstance(comp, (ast.ListComp, ast.GeneratorExp, ast.SetComp)) and len(comp.generators) == 1 and not par.ifs \
+                        and isinstance(par.target, ast.Name) and maps_through_self(comp.elt, par.target.id):
+                    outer = pm.get(comp)
+                    if plain_sorted(outer, comp):
+                        ok_any = True
+                        continue
+                    if isinstance(comp, ast.ListComp) and isinstance(outer, ast.Assign) and len(outer.targets) == 1 and isinstance(outer.targets[0], ast.Name) \
+                            and sorted_before_read(outer.targets[0].id, [outer], scope):
+                        ok_any = True
+                        continue
                 return False
-            return ok_any
+            if isinstance(par, ast.Call) and isinstance(par.func, ast.Name) and par.func.id == "map" and len(par.args) == 2 and par.args[1] is n \
+                    and isinstance(par.args[0], ast.Name) and par.args[0].id == name:
+                outer = pm.get(par)
+                if plain_sorted(outer, par):
+                    ok_any = True
+                    continue
+                return False
+            if isinstance(par, ast.For) and par.iter is n and isinstance(par.target, ast.Name) and not par.orelse and len(par.body) == 1:
+                # for x in o: L.append(f(x)) - with L = [] before it and sorted before it is read
+                b_ = par.body[0]
+                c_ = b_.value if isinstance(b_, ast.Expr) else None
+                if isinstance(c_, ast.Call) and A.call_attr(c_) == "append" and isinstance(A.call_recv(c_), ast.Name) and len(c_.args) == 1 and not c_.keywords \
+                        and maps_through_self(c_.args[0], par.target.id):
+                    lst = A.call_recv(c_).id
+                    inits = [x for x in ast.walk(scope) if isinstance(x, ast.Assign) and len(x.targets) == 1 and isinstance(x.targets[0], ast.Name) and x.targets[0].id == lst]
+                    if len(inits) == 1 and isinstance(inits[0].value, ast.List) and not inits[0].value.elts and fa.nodes(inits[0]) and fa.nodes(par) \
+                            and all(fa.cfg.must_pass(fa.nodes(inits[0]), j_) for j_ in fa.nodes(par)) and sorted_before_read(lst, [inits[0], par], scope):
+                        ok_any = True
+                        continue
+                return False
+            return False
+        return ok_any
     return False
 
 
